@@ -20,7 +20,7 @@ RULE = (
     "hyp: programs of 1-6 steps over a frame (2-25 rows; key column k plus int/float columns; unique sorted index; "
     "from_pandas(npartitions|chunksize) or value based split, known divisions) and a small second frame. Every step "
     "reads an EARLIER variable (so variables are shared by several consumers: DAG, not chain): filter (col cmp const), "
-    "filter with a reduction inside the predicate (col cmp col.mean()/min()/max()), conjunction of two predicates, "
+    "filter with a reduction inside the predicate (col cmp col.mean()/min()/max()), conjunction of two predicates, disjunctions of conjunctions that share atoms ((A&B)|(A&C)|D), "
     "projection, assign (col op col | col op const | col - col.reduction(); the name may SHADOW an existing column, also one "
     "used by an earlier filter), drop, repartition, loc slice, reset_index, groupby(k).agg, merge with the second frame "
     "below later projections/filters, concat with another variable or the second frame, optional final reduction. "
@@ -40,7 +40,7 @@ ASSUMPTIONS = [
 TECHNIQUE = "differential testing of Hypothesis-generated DAG-shaped dataframe programs: pandas vs unsimplified lowering vs optimized vs re-optimized"
 
 CMP = {">": "__gt__", "<": "__lt__", ">=": "__ge__", "<=": "__le__"}
-SHARED = ("filter_red", "filter_and", "assign")
+SHARED = ("filter_red", "filter_and", "filter_dnf", "assign")
 
 
 class _Skip(Exception):
@@ -76,6 +76,16 @@ def apply_step(step, vals, st_, is_dask, res):
         return df[_pred(df, res, "c", step, is_dask)]
     if op == "filter_and":
         return df[_pred(df, res, "c1", step["p1"], is_dask) & _pred(df, res, "c2", step["p2"], is_dask)]
+    if op == "filter_dnf":
+        # (A & B) | (A & C) | D ...: clauses share atoms, which the optimizer factors out of the disjunction
+        atoms = [_pred(df, res, f"d{j}", a, is_dask) for j, a in enumerate(step["atoms"])]
+        mask = None
+        for clause in step["clauses"]:
+            m = None
+            for j in clause:
+                m = atoms[j % len(atoms)] if m is None else m & atoms[j % len(atoms)]
+            mask = m if mask is None else mask | m
+        return df[mask]
     if op == "project":
         cols = list(df.columns)
         keep = res.setdefault("keep", [c for i, c in enumerate(cols) if step["mask"] >> i & 1] or cols[:1])
@@ -245,7 +255,7 @@ pred = st.fixed_dictionaries({"col": st.integers(0, 5), "cmp": st.sampled_from(l
 
 @st.composite
 def step(draw, i):
-    op = draw(st.sampled_from(["filter", "filter", "filter_red", "filter_and", "project", "project", "assign", "assign", "assign", "drop", "repartition", "loc", "reset_index", "groupby", "merge", "concat"]))
+    op = draw(st.sampled_from(["filter", "filter", "filter_red", "filter_and", "filter_dnf", "filter_dnf", "project", "project", "assign", "assign", "assign", "drop", "repartition", "loc", "reset_index", "groupby", "merge", "concat"]))
     # mostly the latest variable (chains), sometimes an earlier one (DAG with shared sub-expressions)
     s = {"op": op, "src": i if draw(st.integers(0, 2)) else draw(st.integers(0, i))}
     if op in ("filter", "filter_red"):
@@ -253,6 +263,9 @@ def step(draw, i):
         s["red"] = draw(st.sampled_from(["mean", "min", "max"])) if op == "filter_red" else None
     elif op == "filter_and":
         s.update(p1=draw(pred), p2=draw(pred))
+    elif op == "filter_dnf":
+        s["atoms"] = draw(st.lists(pred, min_size=2, max_size=4))
+        s["clauses"] = draw(st.lists(st.lists(st.integers(0, 3), min_size=1, max_size=3, unique=True), min_size=2, max_size=4))
     elif op == "project":
         s["mask"] = draw(st.integers(1, 63))
     elif op == "assign":
